@@ -82,6 +82,7 @@ type Gen struct {
 	retReach []Term
 	curInstr ssa.Instruction
 	lastWritten []ssa.Value
+	lastLocks   lockSites
 }
 
 // shared is the script under construction; inlined callees share it with
@@ -103,6 +104,8 @@ type shared struct {
 	usedSpecFuncs map[string]bool
 	uncontracted  map[string]bool // in-repo callees havocked by mod-set
 	external      map[string]bool // dependency callees without contract
+	sfN           int    // safety sites seen so far
+	sfPrefix      Term   // Bool constant: every safety check before this point passed ("" = true)
 }
 
 type inlineRet struct {
@@ -121,6 +124,8 @@ type loopInfo struct {
 	ord    int
 	phiEnv map[string]TV // set while evaluating invariants
 	havoc  *State
+	pre    *State        // state on entry to the loop (before the first iteration)
+	prePhi map[string]TV // values of the loop's phi nodes on entry
 }
 
 type genError struct{ msg string }
@@ -207,6 +212,12 @@ func (g *Gen) addObl(kind, label string, reach Term, goal Term, src string, cove
 		}
 	}
 	var last string
+	// Execution reaches this point only if every earlier run-time check
+	// passed (otherwise the program panicked). Safety obligations carry
+	// their own per-site prefixes instead (see Gen.safety).
+	if kind != "safety" && kind != "pre" && kind != "inv.entry" && g.sfPrefix != "" {
+		reach = fmt.Sprintf("(and %s %s)", g.sfPrefix, reach)
+	}
 	if cover {
 		last = fmt.Sprintf("(assert %s)\n", reach)
 	} else {
@@ -283,6 +294,14 @@ func (g *Gen) run() {
 		g.vals[fv] = c
 		g.assert(g.u.rangeFact(c, fv.Type(), g.top(g.entry)))
 		g.assert(fmt.Sprintf("(< 0 %s)", c))
+	}
+	// captured variables are distinct variables: their cells do not alias
+	if len(fn.FreeVars) > 1 {
+		var cells []string
+		for _, fv := range fn.FreeVars {
+			cells = append(cells, g.vals[fv])
+		}
+		g.assert("(distinct " + strings.Join(cells, " ") + ")")
 	}
 	g.results = g.con.Results
 	// requires
@@ -585,9 +604,13 @@ func (g *Gen) loopHeader(li *loopInfo, pre *State, phiFwd map[*ssa.Phi]Term) *St
 		}
 		env.phiOverride[phi.Name()] = TV{t, g.u.SortOf(phi.Type()), phi.Type()}
 	}
+	li.pre, li.prePhi = pre, env.phiOverride
 	for _, inv := range invs {
 		goal := g.evalBool(env, inv.Expr, inv.Src)
-		g.addObl("inv.entry", fmt.Sprintf("L%d.%s", li.ord, inv.Label), r, goal, inv.Src, false)
+		g.addObl("inv.entry", fmt.Sprintf("L%d.%s", li.ord, inv.Label), g.guarded(r), goal, inv.Src, false)
+		if !g.invUnproved(li, inv) {
+			g.chain(fmt.Sprintf("(=> %s %s)", r, goal))
+		}
 	}
 	// havoc everything the loop may modify
 	mods, all := g.loopModSet(li)
@@ -609,10 +632,20 @@ func (g *Gen) loopHeader(li *loopInfo, pre *State, phiFwd map[*ssa.Phi]Term) *St
 	env2 := g.newEnv(st, g.entry)
 	env2.loop = li
 	for _, inv := range invs {
+		if g.invUnproved(li, inv) {
+			continue // generated and reported, never assumed
+		}
 		t := g.evalBool(env2, inv.Expr, inv.Src)
-		g.assert(fmt.Sprintf("(=> %s %s)", r, t))
+		g.assert(fmt.Sprintf("(=> %s %s)", g.guarded(r), t))
 	}
 	return st
+}
+
+// invUnproved: the entry or step obligation of this invariant clause does not
+// discharge on the unchanged tree (SkipClauses), so it must not be assumed.
+func (g *Gen) invUnproved(li *loopInfo, inv *spec.Clause) bool {
+	n := fmt.Sprintf("L%d.%s", li.ord, inv.Label)
+	return SkipClauses[g.name+"#inv.entry."+n] || SkipClauses[g.name+"#inv.step."+n]
 }
 
 func (g *Gen) invariantsFor(ord int) []*spec.Clause {
